@@ -1,3 +1,12 @@
+// STATUS: tests (A) and (B) REPAIRED in /repo by the commit "fix: fetch_block read the values of the wrong docs for unsorted or repeated doc blocks"
+// (`is_contiguous` now also checks `last >= first` and that every step is +1; the debug_assert is gone).  On the repaired tree main ran
+// (A) and (B): 2/2 pass in debug and release; the text and recorded runs for (A)/(B) describe the tree BEFORE the repair.
+// Regression guards: Verus unit block_accessor (is_contiguous is a run test for ANY block; fetch_block on a Full column proved for any block),
+// mutant specs/mutants/block_accessor/is_contiguous_endpoints_only.patch (= the revert).
+// RESIDUAL (NOT repaired, test (C) below): the out-of-order blocks still reach sub-aggregations; a sub-aggregation with a `missing`
+// parameter on a NON-full column runs find_missing_docs (a merge of two sorted lists) on such a block and reports a document that
+// HAS a value as missing as well.
+//
 // Candidate finding F-blockacc-unsorted-block (C14 / C08, Verus unit block_accessor):
 // "For any aggregation request (... terms with ... missing, ... histogram ..., nested sub-aggregations), the result over the documents
 // matching a query equals the result computed directly from those documents' field values."
@@ -24,6 +33,41 @@
 // Ordinary integration test, public API only: copy into tests/ of a copy of the tree,
 //   cargo test --offline --test demo_block_accessor_unsorted_block -- --test-threads 1 --nocapture
 //   cargo test --release --offline --test demo_block_accessor_unsorted_block -- --test-threads 1 --nocapture
+// (C) RESIDUAL.  doc0 cat=1 opt=10 | doc1 cat=2 opt=1000 | doc2 (no cat) opt=20 | doc3 cat=1 (no opt) ; terms(cat, missing: 1) / sum(opt, missing: 5)
+// bucket 1 receives the block [0, 3, 2] (missing doc 2 appended after doc 3).  fetch_block_with_missing on the Optional column `opt`:
+// docid_cache = [0, 2]; find_missing_docs(docs = [0, 3, 2], hits = [0, 2]): 0 == 0; 3 > 2 -> hits exhausted; then 3 AND 2 are reported
+// missing: doc 2 contributes its value 20 and the missing value 5.
+#[test]
+fn residual_missing_scan_on_out_of_order_block() {
+    let mut schema_builder = Schema::builder();
+    let cat = schema_builder.add_u64_field("cat", FAST);
+    let opt = schema_builder.add_u64_field("opt", FAST);
+    let index = Index::create_in_ram(schema_builder.build());
+    let mut writer: IndexWriter = index.writer_with_num_threads(1, 20_000_000).unwrap();
+    for (c, o) in [(Some(1u64), Some(10u64)), (Some(2), Some(1000)), (None, Some(20)), (Some(1), None)] {
+        let mut doc = TantivyDocument::default();
+        if let Some(c) = c {
+            doc.add_u64(cat, c);
+        }
+        if let Some(o) = o {
+            doc.add_u64(opt, o);
+        }
+        writer.add_document(doc).unwrap();
+    }
+    writer.commit().unwrap();
+    let res = run(
+        &index,
+        r#"{ "by_cat": { "terms": { "field": "cat", "missing": 1 }, "aggs": { "s": { "sum": { "field": "opt", "missing": 5 } } } } }"#,
+    );
+    println!("(C) terms(cat, missing=1)/sum(opt, missing=5): {res:?}");
+    let res = res.expect("valid request must not fail");
+    let buckets = res["by_cat"]["buckets"].as_array().unwrap();
+    let b1 = buckets.iter().find(|b| b["key"].as_f64() == Some(1.0)).unwrap();
+    assert_eq!(b1["doc_count"].as_u64(), Some(3));
+    // bucket 1 = docs 0 (opt 10), 2 (opt 20), 3 (no opt -> 5)
+    assert_eq!(b1["s"]["value"].as_f64(), Some(35.0), "10 + 20 + 5");
+}
+
 // Recorded runs: see the end of this file.
 use serde_json::Value;
 use tantivy::aggregation::agg_req::Aggregations;
